@@ -982,12 +982,14 @@ pub struct Bld<'s, I: Kind<'s>, R: Er<'s, I>> {
     pub share_memo: bool,
     pub memo_cache: HashMap<G, BP<'s, I, R>>,
     pub recs: HashMap<u8, BP<'s, I, R>>,
+    /// bounds of the repetition whose sink is being built (picks the fixed-size container kind: array, Box, Rc, Arc)
+    pub hint: usize,
 }
 
 
 impl<'s, I: Kind<'s>, R: Er<'s, I>> Bld<'s, I, R> {
     pub fn new(g: &G, observed: bool) -> Self {
-        Bld { ids: number(g), observed, rec_style: RecStyle::Func, explicit: false, obs_state: false, cap_spans: false, borrow_prims: false, share_memo: false, memo_cache: HashMap::new(), recs: HashMap::new() }
+        Bld { ids: number(g), observed, rec_style: RecStyle::Func, explicit: false, obs_state: false, cap_spans: false, borrow_prims: false, share_memo: false, memo_cache: HashMap::new(), recs: HashMap::new(), hint: 0 }
     }
 
     pub fn build(&mut self, g: &G) -> BP<'s, I, R> {
